@@ -461,7 +461,7 @@ type c02Acked struct {
 // modelOwn: the model line of an own commit that was acknowledged with this header
 func (c *c02Case) modelOwn(a c02Acked) {
 	alh := a.hdr.Alh()
-	c.corr(fmt.Sprintf("own %d %s %s 0 1 %s", a.hdr.Ts, hx.Hex(nil), entriesTok(a.es), staleTok(a.hdr)), fmt.Sprintf("tx %d %s", a.hdr.ID, hex32(alh)))
+	c.corr(fmt.Sprintf("own %d %s %s 0 1", a.hdr.Ts, hx.Hex(nil), entriesTok(a.es)), fmt.Sprintf("tx %d %s", a.hdr.ID, hex32(alh)))
 	if c.cfg.synced {
 		c.corr("sync", "ok")
 	}
